@@ -90,15 +90,40 @@ fn family(fam: &str, c: usize) -> (String, usize, usize, usize) {
             s.push_str(";\n");
             (s, 1, 1, 1)
         }
+        "ecosymbols" => {
+            // Eco: every token of a production is followed by a reference to the implicit rule, so a
+            // production of t tokens compiles to 2 t symbols. X has ceil(c / 2) tokens (about c
+            // symbols once compiled); Y has one symbol more than X in the source but only rule
+            // references (no expansion): the longest production of the source is not the longest
+            // compiled one.
+            let t = c.div_ceil(2);
+            s.push_str("%implicit_tokens ws\n%start S\n%expect-unused X Y\n%%\nS: 'a';\nX:");
+            for _ in 0..t {
+                s.push_str(" 'a'");
+            }
+            s.push_str(";\nY:");
+            for _ in 0..t + 1 {
+                s.push_str(" S");
+            }
+            s.push_str(";\n");
+            (s, usize::MAX, usize::MAX, usize::MAX)
+        }
         _ => unreachable!(),
     }
 }
 
+fn family_kind(fam: &str) -> cfgrammar::yacc::YaccKind {
+    if fam == "ecosymbols" { cfgrammar::yacc::YaccKind::Eco } else { YK }
+}
+
 macro_rules! build_width {
-    ($T:ty, $text:expr, $inputs:expr) => {{
+    ($T:ty, $text:expr, $inputs:expr) => {
+        build_width!($T, $text, $inputs, YK)
+    };
+    ($T:ty, $text:expr, $inputs:expr, $yk:expr) => {{
         let text: &str = $text;
         let r = catch_unwind(AssertUnwindSafe(|| {
-            let grm = YaccGrammar::<$T>::new_with_storaget(YK, text).map_err(|e| format!("grammar error: {:?}", e.iter().map(|x| x.to_string()).collect::<Vec<_>>()))?;
+            let grm = YaccGrammar::<$T>::new_with_storaget($yk, text).map_err(|e| format!("grammar error: {:?}", e.iter().map(|x| x.to_string()).collect::<Vec<_>>()))?;
             let (sg, st) = from_yacc(&grm, Minimiser::Pager).map_err(|e| format!("table error: {}", e))?;
             let n = usize::from(sg.all_states_len());
             let dump = format!("{}{}{}", dump_grammar(&grm), dump_table(&grm, &st, n, false), dump_graph(&sg));
@@ -109,7 +134,7 @@ macro_rules! build_width {
             let (nr, nt, np) = (usize::from(grm.rules_len()), usize::from(grm.tokens_len()), usize::from(grm.prods_len()));
             let mut in_range = usize::from(grm.start_prod()) < np && usize::from(grm.eof_token_idx()) < nt && usize::from(grm.start_rule_idx()) < nr;
             for p in grm.iter_pidxs() {
-                in_range &= usize::from(p) < np && usize::from(grm.prod_to_rule(p)) < nr;
+                in_range &= usize::from(p) < np && usize::from(grm.prod_to_rule(p)) < nr && usize::from(grm.prod_len(p)) == grm.prod(p).len();
             }
             in_range &= grm.iter_rules().count() == nr && grm.iter_tidxs().count() == nt && grm.iter_pidxs().count() == np;
             let parses = parse_all::<$T>(&grm, &st, n, $inputs);
@@ -194,16 +219,16 @@ pub fn worker(_args: &[String]) {
         let (text, _, _, _) = family(fam, n);
         let inputs = all_inputs(2, 3);
         let v = match width {
-            "u8" => build_width!(u8, &text, &inputs),
-            "u16" => build_width!(u16, &text, &inputs),
-            _ => build_width!(u32, &text, &inputs),
+            "u8" => build_width!(u8, &text, &inputs, family_kind(fam)),
+            "u16" => build_width!(u16, &text, &inputs, family_kind(fam)),
+            _ => build_width!(u32, &text, &inputs, family_kind(fam)),
         };
         v.to_string()
     });
 }
 
 pub fn run(ctx: Ctx) -> i32 {
-    let fams = ["rules", "tokens", "prods", "symbols", "states", "lexrules"];
+    let fams = ["rules", "tokens", "prods", "symbols", "ecosymbols", "states", "lexrules"];
     let widths = ["u8", "u16", "u32"];
     if let Some(case) = load_replay(&ctx) {
         // the quick exploration takes about a second: replay = run it again and keep the
@@ -306,7 +331,7 @@ pub fn run(ctx: Ctx) -> i32 {
                     continue;
                 }
                 let (_, er, et, ep) = family(f, c);
-                let sizes_ok = v["rules"].as_u64() == Some(er as u64 + 1) && v["tokens"].as_u64() == Some(et as u64 + 1) && v["prods"].as_u64() == Some(ep as u64 + 1) && v["in_range"] == json!(true);
+                let sizes_ok = (er == usize::MAX && v["in_range"] == json!(true)) || v["rules"].as_u64() == Some(er as u64 + 1) && v["tokens"].as_u64() == Some(et as u64 + 1) && v["prods"].as_u64() == Some(ep as u64 + 1) && v["in_range"] == json!(true);
                 if !sizes_ok {
                     ctx.violation(
                         "c20-wrap",
